@@ -424,6 +424,31 @@ class Ctx:
         self.inputs[name] = v
         return v
 
+    def str(self, name: str, n: int, lo: int = 0x20, hi: int = 0x7E, exclude_surrogates=True):
+        """String of n symbolic code points in [lo, hi]."""
+        from .ints import SymInt
+        from .strs import mkstr
+
+        if name.endswith("#"):
+            name = self._name(name[:-1])
+        if self.mode != "sym":
+            v = self.values.get(name)
+            if v is None:
+                v = chr(lo) * n
+            if isinstance(v, list):
+                v = "".join(chr(c) for c in v)
+            self.inputs[name] = v
+            return v
+        cps = []
+        for i in range(n):
+            c = SymInt.var("%s[%d]" % (name, i), lo, hi, self)
+            if exclude_surrogates and lo <= 0xDFFF and hi >= 0xD800 and not isinstance(c, int):
+                self.assume(z3.Or(c.t < 0xD800, c.t > 0xDFFF))
+            cps.append(c)
+        v = mkstr(cps)
+        self.inputs[name] = v
+        return v
+
     def choice(self, name: str, options):
         """A solver-chosen element of a concrete list (forks per feasible index)."""
         options = list(options)
